@@ -173,6 +173,51 @@ def run(fb, rep):
             else:
                 rep.ok(R, "%s: the value stack is restored after the frames are unwound" % b.id)
     rep.floor(R, "entry unwinding sites that restore the value stack", n_v, 10)
+    # (after seed C06-4) *where* to unwind to is read before the call starts: the frame level / stack length handed to the reset
+    # functions come from reads that dominate everything in the entry that can push frames or values for this call (the evaluator
+    # calls, the closures that call them, the pushes of the callee and its arguments).  Read afterwards, the target is the stack
+    # as the failed call left it and the reset removes nothing.
+    n_o = 0
+    seen_ids = set()
+    for b in pool:
+        if b.id in seen_ids or b.kind == "coroutine_post":
+            continue
+        seen_ids.add(b.id)
+        root = b.get("root") or b.id.split("::{closure")[0]
+        in_scope = (root.startswith("gluon_vm::api::function::Function::<") and (root.endswith("::call_first") or root.endswith("::call_async") or root.endswith("::call_any_first"))) \
+            or root.endswith("ThreadInternal::call_thunk_top") or root.endswith("ThreadInternal::execute_io_top")
+        if not in_scope:
+            continue
+        resets = [c for c in b.calls() if c.res.endswith("thread::reset_stack") or c.res.endswith("thread::reset_stack_after_error") or c.res.endswith("thread::reset_stack_values")]
+        if not resets:
+            continue
+        # the read lives in this body or (for a closure) in the enclosing entry body, from which it is captured
+        starts = []
+        for c in b.calls():
+            last = c.res.rsplit("::", 1)[-1]
+            if _is_eval(c.res) or last in ("call_first", "call_any_first") or last == "vm_push" or (last == "push" and "thread::" in c.res):
+                starts.append(c.bb)
+        for i, j, pl, rv, ln in b.assigns():
+            if rv[0] == "agg" and rv[1][0] in ("closure", "coroutine"):
+                cb = fb.body(rv[1][1]) or fb.pre.get(rv[1][1])
+                if cb is not None and any(x.res.rsplit("::", 1)[-1] in ("call_first", "call_any_first") or _is_eval(x.res) for x in cb.calls()):
+                    starts.append(i)
+        for c in resets:
+            if len(c.args) < 2:
+                continue
+            src = flow.sources(b, c.args[1], depth=12)
+            reads = [x for x in b.calls() if x.res.rsplit("::", 1)[-1] in ("frame_level", "len", "get_frames") and ("stack::" in x.res or "thread::" in x.res or "slice" in x.res)
+                     and any(s_[0] == "call" and s_[1] == x.res for s_ in src)]
+            if not reads:
+                continue  # captured from the enclosing body (an upvar): judged there
+            n_o += 1
+            late = [x for x in reads if not all(b.dominates(x.bb, sbb) or x.bb == sbb for sbb in starts)]
+            if late:
+                rep.violation(R, "unwind-target-read-late|%s" % _norm(root), "%s reads the frame level / stack length it later unwinds to after the call may already have pushed frames or values: "
+                              "after a failure the reset unwinds to the failed call's own position and removes nothing" % b.id, late[0].where())
+            else:
+                rep.ok(R, "%s: the unwind target is read before the call starts" % b.id)
+    rep.floor(R, "unwind targets whose read site was examined", n_o, 20)
 
 
 def _only_via_err_of(b, c, vcalls, rets):
